@@ -167,6 +167,7 @@ fn c16_chunked_stream_q() {
     let mut ngot = 0usize;
     // first delivery: bytes [0, cut)
     let off_before = phy.rx_off;
+    let mut first_last_flag = false;
     if kani::any() {
         phy.receive_telegram(now, |t| {
             if ngot < 4 {
@@ -175,11 +176,12 @@ fn c16_chunked_stream_q() {
             ngot += 1;
         });
     } else {
-        phy.receive_all_telegrams(now, |t, _| {
+        phy.receive_all_telegrams(now, |t, is_last| {
             if ngot < 4 {
                 got[ngot] = rec_of(&t, false);
             }
             ngot += 1;
+            first_last_flag = is_last;
         });
     }
     if ngot == 0 {
@@ -196,7 +198,8 @@ fn c16_chunked_stream_q() {
         last_flag = is_last;
     });
     assert!(ngot == 2 && got[0] == r1 && got[1] == r2, "C16/chunking: the telegrams of the stream are received in order, each once, wherever the stream was cut");
-    assert!(phy.rx_off == total && last_flag, "C16/chunking: the buffer is empty afterwards and the final telegram was flagged last");
+    let second_delivered = phy.rx_calls > 0 && last_flag;
+    assert!(phy.rx_off == total && (second_delivered || (cut == total && first_last_flag)), "C16/chunking: the buffer is empty afterwards and the final telegram was flagged last");
     kani::cover!(cut > 0 && cut < n1, "cover: cut inside the first telegram");
     kani::cover!(cut > n1 && cut < total, "cover: cut inside the second telegram");
     kani::cover!(r1.kind == 2 && r2.kind == 0, "cover: data telegram followed by a token");
